@@ -101,8 +101,8 @@ def evaluate(case):
             mtext, den, _ = c05.build_one(case['matcher'])
         pool = [(v, sh) for v, sh in zip(views, shown_all) if sel == 'all' or v.conn == sel]
         dens = [den(v) for v, _ in pool]
-        if any(d is None for d in dens):
-            return Eval([], outcome='undecided', nontrivial=False)
+        # messages the documentation does not decide for this matcher may be listed or not; the others are judged
+        maybe = {sh for (v, sh), d in zip(pool, dens) if d is None}
         matches = [sh for (v, sh), d in zip(pool, dens) if d]
         k = len(matches)
         cap = case['cap']
@@ -142,7 +142,15 @@ def evaluate(case):
             want = matches if capn is None else None     # `~ 0` is outside the property (N >= 1)
         else:
             want = matches[-capn:]
-        if want is not None and listed != want:
+        if maybe:
+            # with undecided messages in the pool only the certain part is compared (and only without a cap: which
+            # messages are "the last N" depends on the undecided ones)
+            if capn is None:
+                core = [x for x in listed if x not in maybe]
+                if core != matches:
+                    V.append(Violation('list.content', case, dict(detail, expected_apart_from_undecided=matches[-5:], observed=core[-5:],
+                                                                  expected_n=len(matches), observed_n=len(core))))
+        elif want is not None and listed != want:
             V.append(Violation('list.content', case, dict(detail, expected=want[-5:], observed=listed[-5:],
                                                           expected_n=len(want), observed_n=len(listed))))
         recorded = len(pool)
